@@ -565,7 +565,8 @@ DEV_STRIDE = 4
 def dev_dims(thorough):
     d = collections.OrderedDict()
     d["key"] = Z.KEYS30
-    d["meter"] = Z.METERS
+    # ... and counts that need the whole data byte of the time signature event (128..255)
+    d["meter"] = Z.METERS + [(128, 128), (200, 128), (255, 64)]
     d["channel"] = [1, 0, 9, 15] if not thorough else [1, 0] + list(range(2, 16))
     d["velocity"] = [64, 0, 1, 127]
     d["instrument"] = Z.INSTRUMENTS
